@@ -115,8 +115,9 @@ RuleDurationInterval(dur, iv) ==
   IF Days(TsOfDate(iv.t)) - Days(TsOfDate(iv.f)) = DurDays(dur) THEN iv ELSE FAIL
 
 RuleTODPOD(tod, pod) ==
-  \* repaired (fix 18d3c04, C06): hour 0 is midnight whatever the part of day ("0 uhr nachts")
-  IF tod.H > 0 /\ tod.H < 12 /\ PodPMish(pod.p) THEN TOD(tod.H + 12, tod.M)
+  \* repaired (fixes 18d3c04, d1bf5c6, C06): hour 0 at night / in the evening is midnight ("0 uhr nachts"); next to an afternoon
+  \* part of day it is the hour after noon ("halb eins nachmittags" = 12:30)
+  IF tod.H < 12 /\ PodPMish(pod.p) /\ ~(tod.H = 0 /\ ~PodAft(pod.p)) THEN TOD(tod.H + 12, tod.M)
   ELSE IF tod.H > 12 /\ PodAMish(pod.p) THEN FAIL
   ELSE TOD(tod.H, tod.M)
 
@@ -135,7 +136,7 @@ RuleDateInterval(d, i) ==
                ELSE LET e == AddDays(td, 1) IN MkInterval(f, MkTime(e.y, e.m, e.d, e.H, e.M, X, t.p))
 
 RulePODInterval(p, i) ==
-  LET adj(t) == IF t.H = X THEN X ELSE IF t.H > 0 /\ t.H < 12 /\ PodPMish(p.p) THEN t.H + 12 ELSE t.H
+  LET adj(t) == IF t.H = X THEN X ELSE IF t.H < 12 /\ PodPMish(p.p) /\ ~(t.H = 0 /\ ~PodAft(p.p)) THEN t.H + 12 ELSE t.H
       okEnd(e) == e = NONE \/ hasTime(e)
       mk(e) == IF e = NONE THEN NONE ELSE MkTime(e.y, e.m, e.d, adj(e), e.M, e.w, NOPOD)
       bothDT == i.f # NONE /\ i.t # NONE /\ isDateTime(mk(i.f)) /\ isDateTime(mk(i.t))
